@@ -631,6 +631,7 @@ FILES = {}
 LANG_FAMILIES = {
     # (variables, fixed rules (start rule first), symbolic candidate rules)
     'ab': (['S', 'A'], [('S', 'aA')], [('S', ''), ('A', 'b'), ('A', 'aA'), ('S', 'SS'), ('A', ''), ('S', 'b'), ('A', 'S')]),
+    'double': (['S', 'A', 'B'], [('S', 'aAb')], [('A', 'BB'), ('B', ''), ('B', 'b'), ('A', 'a'), ('S', 'ab'), ('B', 'A')]),
     'nest': (['S', 'T'], [('S', 'aSb')], [('S', ''), ('S', 'T'), ('T', 'a'), ('T', 'TT'), ('S', 'ab'), ('T', ''), ('S', 'ba')]),
 }
 
@@ -676,7 +677,7 @@ def _parse_words(word_list):
     return set('' if w in ('ε', '_') else w for w in word_list.split())
 
 
-def job_lang(job, front, ans, ref, syms, length, max_states=0, garbage=True):
+def job_lang(job, front, ans, ref, syms, length, max_states=0, garbage=True, first_length=None):
     """front: 'from_file' | 'from_words'; ans = [kind, spec]; ref = [kind, spec] or ['words', 'word list']"""
     import gambatools.notebook as NB
     job.functions('notebook', ['check_language_from_file', 'check_language_from_words', 'language_parser', 'check_max_states', 'print_feedback',
@@ -704,6 +705,11 @@ def job_lang(job, front, ans, ref, syms, length, max_states=0, garbage=True):
         rpd.update({'ref_kind': ref[0], 'reference': r['json']})
         refacc = {w: r['acc'](w) for w in words}
         fn = getattr(NB, 'check_%s_language_from_file' % ans[0])
+        if first_length is not None:
+            # call history: the same reference file was checked before with another length bound (a verdict or reference
+            # language remembered per file name would be stale now)
+            rpd['first_length'] = first_length
+            run_checker(fn, atext, fname, first_length)
         rp = ('lang', rpd)
         ev = run_checker(fn, atext, fname, length)
     else:
@@ -818,6 +824,10 @@ def jobs(tier):
     add('lang_file_dfa_vs_regexp', job_lang, front='from_file', ans=['dfa', {'n': 2}], ref=['regexp', {'shape': ['S', 0, ['I', 0]]}], syms='ab', length=3, timeout=tmo)
     add('lang_file_cfg_vs_dfa', job_lang, front='from_file', ans=['cfg', {'family': 'ab', 'nsym': 5}], ref=['dfa', {'n': 2}], syms='ab', length=3, timeout=tmo)
     add('lang_file_dfa_vs_cfg', job_lang, front='from_file', ans=['dfa', {'n': 2}], ref=['cfg', {'family': 'nest', 'nsym': 5}], syms='ab', length=3, timeout=tmo)
+    add('lang_file_dfa_vs_dfa_history', job_lang, front='from_file', ans=['dfa', {'n': 2}], ref=['dfa', {'n': 2}], syms='a', length=3, first_length=1, timeout=tmo)
+    add('lang_file_dfa_vs_regexp_history', job_lang, front='from_file', ans=['dfa', {'n': 3}], ref=['regexp', {'shape': ['C', 0, ['I', 0]]}], syms='a', length=4, first_length=2, timeout=tmo)
+    add('lang_file_dfa_vs_cfg_double', job_lang, front='from_file', ans=['dfa', {'n': 2}], ref=['cfg', {'family': 'double', 'nsym': 5}], syms='ab', length=3, timeout=tmo)
+    add('lang_words_cfg_double', job_lang, front='from_words', ans=['cfg', {'family': 'double', 'nsym': 6}], ref=['words', 'ab abb aab abbb'], syms='ab', length=4, timeout=tmo)
     add('lang_words_nfa', job_lang, front='from_words', ans=['nfa', {'n': 2}], ref=['words', 'ε aa'], syms='a', length=3, max_states=2, timeout=tmo)
     add('lang_words_nfa_k2', job_lang, front='from_words', ans=['nfa', {'n': 2, 'eps': 'ε'}], ref=['words', 'a ab'], syms='ab', length=2, max_states=2, timeout=tmo)
     add('lang_words_regexp', job_lang, front='from_words', ans=['regexp', {'shape': ['C', 0, ['I', 0]]}], ref=['words', 'a ab abb'], syms='ab', length=3, timeout=tmo)
@@ -1085,6 +1095,8 @@ def _replay_lang(rp):
         saved = NB.read_utf8_text
         NB.read_utf8_text = lambda filename: rtext
         try:
+            if rp.get('first_length') is not None:
+                _capture(getattr(NB, 'check_%s_language_from_file' % rp['ans_kind']), atext, fname, rp['first_length'])
             lines = _capture(getattr(NB, 'check_%s_language_from_file' % rp['ans_kind']), atext, fname, length)
         finally:
             NB.read_utf8_text = saved
